@@ -96,8 +96,12 @@ class SymInterp(Interp):
             if len(nxt) > max_states:
                 break
             cur = nxt
-        raise AnalysisBroken('loop in %s not decided by the configuration (loop at %s)'
-                             % (fn.name, header.term.where()))
+        # a loop that walks the free list loads link pointers; a loop that loads no pointer at all (a hand-written copy of the
+        # payload, whose trip count is the symbolic block size) is not a walk of the list: not decidable here, and no verdict
+        walks_links = any(i.op == 'load' and i.ty.get('k') == 'ptr' for b in L['blocks'] for i in b.insts)
+        raise AnalysisBroken('loop in %s not %s (loop at %s)'
+                             % (fn.name, 'decided by the configuration' if walks_links else
+                                'a free-list walk and not bounded by the layout: a data loop over a symbolic size', header.term.where()))
 
 
 def cell(T, off, size=8, obj=None):
@@ -731,6 +735,11 @@ def run_realloc(res, mod, pattern):
             if not moved:
                 bad = 'returned block [%r, %r) neither the old block nor disjoint from it' % (hdr, rv.off + sz)
             copies = [e for e in events if e[0] == 'memcpy']
+            if bad is None and not copies:
+                # the payload is moved by something other than a memcpy call (memmove, a copy loop, a helper): that the first
+                # min(old, new) bytes arrive is decided by byte identity in c10_content (R-HEAP-HIST:prefix); this clause describes
+                # the memcpy form only
+                continue
             if bad is None and len(copies) != 1:
                 bad = '%d memcpy calls on the move path' % len(copies)
             if bad is None:
